@@ -1,6 +1,7 @@
 import HexProofs.Framework.Program
 import HexProofs.Framework.Gen.AllX
 import HexProofs.Framework.Gen.IndexTrees
+import HexProofs.Framework.Gen.ProgramTf
 import HexProps.C01
 /-
 C14 – Maintenance operations are idempotent and converge to the batch state.
@@ -23,7 +24,11 @@ For TREES (all 27 shipped classes, `CoveredTreeX`): the same five statements (`c
 `-len ≤ i < len`, index 0 included, and `C14_trees_all`: programs with `calculate_index(±i)` anywhere converge to
 the batch state).  `C14_trees` is the older form that allowed `calculate_index` only for kinds without
 sub-indicators.
-Not covered here: the Hexital façade operations `add_indicator` / `remove_indicator`, collapsing timeframes, an
+ON A COLLAPSING TIMEFRAME, with or without gap filling (every `MgrSpec`; `…_tf` / `C14_trees_mgr`): the same – programs
+converge to the batch run with that configuration, `calculate()` idempotent, `purge()` restores the collapsed (filled)
+stream without readings, `recalculate()` and `calculate_index(i)` reproduce (also right after an append that merged into the
+forming bucket) – for all 27 classes, given a well-formed raw stream (`RawTf`).
+Not covered here: the Hexital façade operations `add_indicator` / `remove_indicator`, Heikin-Ashi / lifespan managers, an
 explicit `end_index` range; the full statement is `C14_FULL`.
 -/
 namespace Hex.C14
@@ -249,6 +254,93 @@ theorem recalculate_reproduces_trees_all (k : Kind F) (name : String) (round : N
   rw [hinv.tree] at he
   exact T.obj_recalculate _ s₁ h1 ((T.engine_resumableAt _ _ _ hinv.res).1 he)
 
+/-! ### collapsing timeframes (and gap filling): every `MgrSpec` -/
+
+/-- **C14 on any manager** (`M : MgrSpec F`: base timeframe, collapsing timeframe, timeframe + fill), all 27 classes:
+construct over raw candles `init` with cfg `M.cfg`, run any program over {append, calculate, purge, recalculate,
+calculate_index(±i) on a candle that holds a reading}; if the raw stream received is well-formed for `M` (`RawTf` on a
+timeframe), a final `calculate()` returns iff the batch run with the same cfg over everything received returns, with
+the same candles. -/
+theorem C14_trees_mgr (k : Kind F) (name : String) (round : Nat) (hk : CoveredTreeX name k) (M : MgrSpec F)
+    (init : List (Candle F)) (ops : List (Op F)) (hok : M.Ok (init ++ (ops.map Op.added).flatten))
+    (s₀ s : IndState F) (h₀ : IndState.init (mkTop k name round) M.cfg init = .ok s₀) (hruns : Runs s₀ ops s)
+    (out : List (Candle F)) :
+    candlesOf s.calculate = .ok out ↔
+      candlesOf (runBatch (mkTop k name round) M.cfg (init ++ (ops.map Op.added).flatten)) = .ok out :=
+  program_converges_tf hk round M init ops hok s₀ s h₀ hruns out
+
+/-- **C14 for all covered trees, any timeframe, gap filling off or on** (configuration as in `C01_trees`) -/
+theorem C14_trees_tf (tf : Option Int) (htf : ∀ t, tf = some t → 0 < t) (fill : Bool) (k : Kind F) (name : String)
+    (round : Nat) (hk : CoveredTreeX name k) (init : List (Candle F)) (ops : List (Op F))
+    (hraw : RawTf (init ++ (ops.map Op.added).flatten)) (s₀ s : IndState F)
+    (h₀ : IndState.init (mkTop k name round) { tf := tf, fill := fill && tf.isSome } init = .ok s₀)
+    (hruns : Runs s₀ ops s) (out : List (Candle F)) :
+    candlesOf s.calculate = .ok out ↔
+      candlesOf (runBatch (mkTop k name round) { tf := tf, fill := fill && tf.isSome }
+        (init ++ (ops.map Op.added).flatten)) = .ok out :=
+  program_converges_cfg hk round tf htf fill init ops hraw s₀ s h₀ hruns out
+
+/-- the program invariant on any manager: after any program the candles are the finished row-major run over the
+collapsed stream `M.spec (init ++ appended)`, or that collapsed stream itself -/
+theorem program_invariant_trees_tf (k : Kind F) (name : String) (round : Nat) (hk : CoveredTreeX name k) :
+    ∃ T : TreeSpec (mkTop k name round), T.IndexOK ∧
+      ∀ (M : MgrSpec F) (init : List (Candle F)) (ops : List (Op F)) (s₀ s : IndState F),
+        M.Ok (init ++ (ops.map Op.added).flatten) →
+        IndState.init (mkTop k name round) M.cfg init = .ok s₀ → Runs s₀ ops s →
+        GProgInvMX T M (init ++ (ops.map Op.added).flatten) s :=
+  program_invariant_tf hk round
+
+/-- `calculate()` again changes nothing – any timeframe -/
+theorem calculate_idempotent_trees_tf (tf : Option Int) (htf : ∀ t, tf = some t → 0 < t) (fill : Bool) (k : Kind F)
+    (name : String) (round : Nat) (hk : CoveredTreeX name k) (init : List (Candle F)) (ops : List (Op F))
+    (hraw : RawTf (init ++ (ops.map Op.added).flatten)) (s₀ s s₁ : IndState F)
+    (h₀ : IndState.init (mkTop k name round) { tf := tf, fill := fill && tf.isSome } init = .ok s₀)
+    (hruns : Runs s₀ ops s) (h : s.calculate = .ok s₁) : candlesOf s₁.calculate = .ok s₁.mgr.candles :=
+  calculate_idempotent_cfg hk round tf htf fill init ops hraw s₀ s s₁ h₀ hruns h
+
+/-- `purge()` gives back the collapsed stream without readings (`resample tf stream`, `fillSpec tf stream` with fill,
+the raw stream on the base timeframe) -/
+theorem purge_restores_spec_trees_tf (tf : Option Int) (htf : ∀ t, tf = some t → 0 < t) (fill : Bool) (k : Kind F)
+    (name : String) (round : Nat) (hk : CoveredTreeX name k) (init : List (Candle F)) (ops : List (Op F))
+    (hraw : RawTf (init ++ (ops.map Op.added).flatten)) (s₀ s : IndState F)
+    (h₀ : IndState.init (mkTop k name round) { tf := tf, fill := fill && tf.isSome } init = .ok s₀)
+    (hruns : Runs s₀ ops s) :
+    s.purge.mgr.candles = (mgrSpecOf F tf htf fill).spec (init ++ (ops.map Op.added).flatten) :=
+  purge_restores_spec_cfg hk round tf htf fill init ops hraw s₀ s h₀ hruns
+
+/-- `recalculate()` reproduces – any timeframe -/
+theorem recalculate_reproduces_trees_tf (tf : Option Int) (htf : ∀ t, tf = some t → 0 < t) (fill : Bool) (k : Kind F)
+    (name : String) (round : Nat) (hk : CoveredTreeX name k) (init : List (Candle F)) (ops : List (Op F))
+    (hraw : RawTf (init ++ (ops.map Op.added).flatten)) (s₀ s s₁ : IndState F)
+    (h₀ : IndState.init (mkTop k name round) { tf := tf, fill := fill && tf.isSome } init = .ok s₀)
+    (hruns : Runs s₀ ops s) (h : s.calculate = .ok s₁) : candlesOf s₁.recalculate = .ok s₁.mgr.candles :=
+  recalculate_reproduces_cfg hk round tf htf fill init ops hraw s₀ s s₁ h₀ hruns h
+
+/-- `calculate_index(i)` reproduces the batch state at every index of the collapsed list – any timeframe -/
+theorem calculate_index_reproduces_trees_tf (tf : Option Int) (htf : ∀ t, tf = some t → 0 < t) (fill : Bool)
+    (k : Kind F) (name : String) (round : Nat) (hk : CoveredTreeX name k) (raw done : List (Candle F))
+    (hraw : RawTf raw)
+    (h : candlesOf (runBatch (mkTop k name round) { tf := tf, fill := fill && tf.isSome } raw) = .ok done)
+    (i : Int) (hlo : -(done.length : Int) ≤ i) (hhi : i < done.length) (act : Int) :
+    candlesOf (IndState.calculateIndex ⟨mkTop k name round, ⟨{ tf := tf, fill := fill && tf.isSome }, done⟩, act⟩ i none)
+      = .ok done :=
+  calculateIndex_reproduces_cfg hk round tf htf fill raw done hraw h i hlo hhi act
+
+/-- … and right after an `append` inside a program (the still-forming bucket included: `i = -1`) -/
+theorem calculate_index_after_append_trees_tf (k : Kind F) (name : String) (round : Nat) (hk : CoveredTreeX name k)
+    (M : MgrSpec F) (init : List (Candle F)) (ops : List (Op F)) (ch : List (Candle F))
+    (hok : M.Ok (init ++ (ops.map Op.added).flatten ++ ch)) (s₀ s' s : IndState F)
+    (h₀ : IndState.init (mkTop k name round) M.cfg init = .ok s₀) (hruns : Runs s₀ ops s')
+    (happ : s'.append ch = .ok s) (i : Int) (hlo : -(s.mgr.candles.length : Int) ≤ i)
+    (hhi : i < s.mgr.candles.length) : candlesOf (s.calculateIndex i none) = .ok s.mgr.candles :=
+  calculateIndex_after_append_tf hk round M init ops ch hok s₀ s' s h₀ hruns happ i hlo hhi
+
+/-- non-vacuity on a 120-second timeframe over one-minute candles, and with fill and a gap -/
+example : ∃ s₀ s, IndState.init TfDemo.kc { tf := some 120 } (TfDemo.min10.take 1) = .ok s₀ ∧ Runs s₀ TfDemo.prog s :=
+  TfDemo.prog_runs
+example : ∃ s₀ s, IndState.init TfDemo.kc { tf := some 120, fill := true } (TfDemo.gap6.take 1) = .ok s₀ ∧
+    Runs s₀ TfDemo.progGap s := TfDemo.progGap_runs
+
 /-- **C14 at full strength**: every shipped kind (composites included) inside a `Hexital`, the
 whole operation alphabet including `add_indicator` / `remove_indicator`, every timeframe.
 The standalone-object part on the base timeframe is PROVED for all 27 classes: `C14_trees_all` (programs),
@@ -257,7 +349,8 @@ The standalone-object part on the base timeframe is PROVED for all 27 classes: `
 `calculate_index(-1)` handing the negative index to helper series, `purge` leaving second-level helper entries –
 are repaired in the library, see known_findings `fixed`).  As a `Prop` the statement below additionally claims
 that the final `calculate()` RETURNS, which is C09's subject (exact ordered field: `C09.X_never_raises`).
-Missing: the Hexital façade operations, collapsing timeframes, an explicit `end_index`. -/
+Collapsing timeframes / gap filling: `C14_trees_mgr`, `C14_trees_tf` and the `…_trees_tf` theorems.
+Missing: the Hexital façade operations, Heikin-Ashi / lifespan managers, an explicit `end_index`. -/
 def C14_FULL (F : Type) [PyF F] : Prop :=
   ∀ (k : Kind F) (name : String) (round : Nat) (init : List (Candle F)) (ops : List (Op F))
     (s : IndState F),
